@@ -53,6 +53,17 @@ def base(which="B1"):
             {"kind": "conn", "a": "b", "b": "n1"},
         ]
         return {"name": "top4", "inputs": ["a", "b"], "outputs": ["y", "q"], "items": items, "models": models[1:]}
+    if which == "B5":  # a star of .conn statements (p-q, q-r, p-s) and a .names with twelve inputs
+        ins = ["d%d" % k for k in range(12)]
+        items = [
+            {"kind": "conn", "a": "p", "b": "q"},
+            {"kind": "conn", "a": "q", "b": "r"},
+            {"kind": "conn", "a": "p", "b": "s"},
+            {"kind": "gate", "model": "BUF", "conns": [["I", "r"], ["O", "o1"]], "cname": "g0"},
+            {"kind": "gate", "model": "BUF", "conns": [["I", "s"], ["O", "o2"]], "cname": "g1"},
+            {"kind": "names", "ins": ins, "out": "wide", "covers": ["1" * 12 + " 1"], "cname": "nm12"},
+        ]
+        return {"name": "top5", "inputs": ["p"] + ins, "outputs": ["o1", "o2", "wide"], "items": items, "models": models[1:2]}
     raise KeyError(which)
 
 
@@ -125,11 +136,13 @@ engine_b.WORKERS[ID] = worker
 
 def cases(tier):
     out = []
-    for which in ("B1", "B2", "B3", "B4"):
+    for which in ("B1", "B2", "B3", "B4", "B5"):
         nitems = len(base(which)["items"])
         for order in itertools.permutations(range(nitems)):
             for models in ("after", "before", "none"):
-                conts = (None, 3, "rev") if tier == "quick" else (None, 2, 3, 4, "rev")
+                conts = (None, 3, "rev", "lone") if tier == "quick" else (None, 2, 3, 4, "rev", "lone")
+                if nitems > 5:
+                    conts = (None, "lone")
                 for cont in conts:
                     for comments in (False, True):
                         if tier == "quick" and comments and (cont or models != "after"):
